@@ -12,7 +12,24 @@ Inductive case :=
 | Query (mysql : bool) (m : method) (kw_ord : option (option str))
         (args : list arg) (kw : list (str * pyval))
         (with_rows : bool) (st : list (str * list (Z * Z))) (rows : list row)
-        (desc : bool) (mtd : Z).
+        (desc : bool) (mtd : Z)
+(* a HISTORY: SqlMethod objects [ms] declared once, one table, and a sequence of steps in which the
+   same objects are used again and again (see [step]) *)
+| Session (ms : list method) (st : list (str * list (Z * Z))) (rows : list row) (steps : list step)
+
+(* One step of a history.  The model has NO state: SqlMethod objects are their three constructor
+   texts, a condition object is the filter it was made from.  The harness resolves a reference to a
+   prepared condition object into that filter with the CURRENT contents of its list objects
+   (justified by Props.prepared_condition_tracks_its_lists); that the implementation keeps nothing
+   else between requests is what the correspondence checks on these cases. *)
+with step :=
+| SPrep (a : arg)                 (* c = SqlFilterCondition.make(a) / SqlMethod._or(..), kept for later steps *)
+| SText (pt : Z) (a : arg)        (* c.make_text_update_values(vals, pt) on a kept object *)
+| SCall (mi : nat) (mysql : bool) (kw_ord : option (option str))
+        (args : list arg) (kw : list (str * pyval))
+        (with_rows desc : bool) (mtd : Z)
+                                  (* ms[mi].<mtd>(conn of that placeholder style, args..., kw...) *)
+| SSkip.                          (* the step needed an object whose creation had raised *)
 
 Definition sx_scalar (a : scalar) : sx :=
   match a with
@@ -34,16 +51,39 @@ Definition sx_outcome (o : outcome) : sx :=
   | OOne x => SL [SZ 2; SZ x]
   end.
 
+Definition run_compile (pt : Z) (a : arg) : sx :=
+  sx_res (fun pv => SL [sx_str (pieces_text (fst pv)); sx_list sx_pyval (snd pv)])
+         (bind (make a) (cond_text pt)).
+
+Definition run_request (mysql : bool) (m : method) (kw_ord : option (option str))
+    (args : list arg) (kw : list (str * pyval))
+    (with_rows : bool) (st : list (str * list (Z * Z))) (rows : list row) (desc : bool) (mtd : Z) : sx :=
+  match build mysql m kw_ord args kw with
+  | Err e => SL [SL []; sx_res sx_outcome (Err e)]
+  | Ok q =>
+      SL [SL [sx_str (q_sql q); sx_list sx_pyval (q_params q)];
+          if with_rows then sx_res sx_outcome (run_query sqlite_cmp sqlite_like st q rows desc mtd) else SL []]
+  end.
+
+Definition run_step (ms : list method) (st : list (str * list (Z * Z))) (rows : list row) (s : step) : sx :=
+  match s with
+  | SPrep a => sx_res (fun _ => SL []) (make a)
+  | SText pt a => run_compile pt a
+  | SCall mi mysql kw_ord args kw with_rows desc mtd =>
+      match nth_error ms mi with
+      | Some m => run_request mysql m kw_ord args kw with_rows st rows desc mtd
+      | None => SL [SZ 8]
+      end
+  | SSkip => SL [SZ 7]
+  end.
+
+Definition run_steps (ms : list method) (st : list (str * list (Z * Z))) (rows : list row)
+    (steps : list step) : list sx := map (run_step ms st rows) steps.
+
 Definition run (c : case) : sx :=
   match c with
-  | Compile pt a =>
-      sx_res (fun pv => SL [sx_str (pieces_text (fst pv)); sx_list sx_pyval (snd pv)])
-             (bind (make a) (cond_text pt))
+  | Compile pt a => run_compile pt a
   | Query mysql m kw_ord args kw with_rows st rows desc mtd =>
-      match build mysql m kw_ord args kw with
-      | Err e => SL [SL []; sx_res sx_outcome (Err e)]
-      | Ok q =>
-          SL [SL [sx_str (q_sql q); sx_list sx_pyval (q_params q)];
-              if with_rows then sx_res sx_outcome (run_query sqlite_cmp sqlite_like st q rows desc mtd) else SL []]
-      end
+      run_request mysql m kw_ord args kw with_rows st rows desc mtd
+  | Session ms st rows steps => SL (run_steps ms st rows steps)
   end.
